@@ -51,12 +51,12 @@ func (c05) Gen(seed int64, tier string, emit func(any)) {
 		k++
 		e(c)
 	})
-	// tryerr / trypipeerr: every chain of 1..3 (4) units over {ok, fail, stderr-only
+	// tryerr / trypipeerr: every chain of 1..3 units over {ok, fail, stderr-only
 	// with exit 0, stderr-only | forwarder, ok | stderr-writing forwarder} ...
 	errUnits := []string{"o", "x", "s", "sO", "os"}
-	maxErr := 3
+	maxErr, maxErrFn := 3, 2
 	if tier == "thorough" {
-		maxErr = 4
+		maxErrFn = 3
 	}
 	for _, m := range []string{"tryerr", "trypipeerr"} {
 		for n := 1; n <= maxErr; n++ {
@@ -66,7 +66,7 @@ func (c05) Gen(seed int64, tier string, emit func(any)) {
 	// ... every chain of 1..2 (3) single commands over {ok, fail, stderr-only, both}
 	// under `runmode tryerr|trypipeerr function`, and random longer chains
 	for _, m := range []string{"fntryerr", "fntrypipeerr"} {
-		for n := 1; n <= maxErr-1; n++ {
+		for n := 1; n <= maxErrFn; n++ {
 			rmExhaustive(rng, m, n, []string{"o", "x", "s", "b"}, rmJoiners, e)
 		}
 	}
